@@ -125,3 +125,71 @@ Theorem c05_lines_are_the_newline_separated_segments : forall c,
     Forall (fun x => ~ In 10 x) (split_nl c).
 Proof. exact split_nl_spec. Qed.
 Print Assumptions c05_lines_are_the_newline_separated_segments.
+
+(* ==========================================================================================
+   Logins racing with each other and with grant additions (Model/LoginRace.v,
+   Proofs/LoginRaceProofs.v): every connection runs checkAuthorization on its own goroutine, a
+   principal's session stores grants on another.  One transition per critical section of
+   AuthgrantMapSync / SyncAuthKeySet.  All theorems: every set of goroutines, every schedule.
+   ========================================================================================== *)
+From Hop Require Import ConcBase LoginRace LoginRaceProofs.
+
+(* a login only ever receives grants that were stored for exactly its user and its key ... *)
+Theorem c05_concurrent_login_key_bound : forall progs x i u k c g, lreachable progs x ->
+  nth_error (lths x) i = Some (LLogin u k, c) -> In g (got_of (LLogin u k, c)) ->
+  In (LAdd u k g) progs.
+Proof. exact login_key_bound. Qed.
+Print Assumptions c05_concurrent_login_key_bound.
+
+(* ... and whatever the map holds under user:key was stored for exactly that user and key *)
+Theorem c05_concurrent_stored_key_bound : forall progs x u k l g, lreachable progs x ->
+  ag_lookup (l_map (lshd x)) (u, k) = Some l -> In g l -> In (LAdd u k g) progs.
+Proof. exact map_key_bound. Qed.
+Print Assumptions c05_concurrent_stored_key_bound.
+
+(* unconsumed means unconsumed: RemoveAuthgrants is one critical section, so in every reachable
+   state every stored grant is in exactly one place - the map, or the hands of exactly one login,
+   once.  Two logins racing for the same user:key can never both be admitted with the same grant. *)
+Theorem c05_concurrent_login_exclusive : forall progs x, lreachable progs x ->
+  NoDup (map g_id (flat_map adds_of progs)) ->
+  NoDup (map g_id (flat_map got_of (lths x) ++ map_grants (l_map (lshd x)))).
+Proof. exact login_exclusive. Qed.
+Print Assumptions c05_concurrent_login_exclusive.
+
+Theorem c05_concurrent_logins_disjoint : forall progs x i j ti tj a b, lreachable progs x ->
+  NoDup (map g_id (flat_map adds_of progs)) -> i <> j ->
+  nth_error (lths x) i = Some ti -> nth_error (lths x) j = Some tj ->
+  In a (got_of ti) -> In b (got_of tj) -> g_id a <> g_id b.
+Proof. exact login_pairwise_disjoint. Qed.
+Print Assumptions c05_concurrent_logins_disjoint.
+
+(* non-vacuity: two grants stored for alice:7, then two logins of alice:7 race: whichever takes
+   the map lock first gets both grants, the other is refused *)
+Definition lr_g0 : grant := mkGrant 0 2 0 100 [108; 115] no_session.
+Definition lr_g1 : grant := mkGrant 1 1 0 100 [] no_session.
+Definition lr_progs : list lprog := [LAdd alice 7 lr_g0; LAdd alice 7 lr_g1; LLogin alice 7; LLogin alice 7].
+Example c05_concurrent_example :
+  exists x, lrun (linit lr_progs) [0; 0; 1; 1; 3; 2; 3]%nat = Some x /\
+            map snd (lths x) = [LDone None; LDone None; LDone None; LDone (Some [lr_g0; lr_g1])] /\
+            l_map (lshd x) = [] /\ l_keys (lshd x) = [].
+Proof. eexists. split; [vm_compute; reflexivity|]. vm_compute. auto. Qed.
+
+(* What does NOT survive concurrency: sequentially the transport key set holds exactly the keys
+   that have an entry in the map (c07_grants_leave_the_server_at_login).  The map and the key set
+   have separate locks and AuthorizeKeyAuthGrant / AddAuthGrant touch them one after the other, so
+   a login racing with an addition for the same user:key can leave (a) a stored grant whose key is
+   no longer in the key set (the delegate cannot even complete the handshake: the grant is dead),
+   or (b) a key in the key set without any grant (the transport layer admits the key; user
+   authorization still refuses it: c05_concurrent_login_key_bound).  Both fail closed; neither is a
+   violation of C05/C07 as stated.  Witnesses: *)
+Theorem c05_keyset_tracks_map_under_races_refuted :
+  (exists x, lrun (linit [LLogin alice 7; LAdd alice 7 lr_g1; LAdd alice 7 lr_g0]) [2; 2; 0; 1; 1; 0]%nat = Some x /\
+             forallb (fun t => match snd t with LDone _ => true | _ => false end) (lths x) = true /\
+             ag_lookup (l_map (lshd x)) (alice, 7) = Some [lr_g1] /\ key_mem (l_keys (lshd x)) 7 = false) /\
+  (exists x, lrun (linit [LLogin alice 7; LAdd alice 7 lr_g0]) [1; 0; 0; 1]%nat = Some x /\
+             forallb (fun t => match snd t with LDone _ => true | _ => false end) (lths x) = true /\
+             ag_lookup (l_map (lshd x)) (alice, 7) = None /\ key_mem (l_keys (lshd x)) 7 = true).
+Proof.
+  split; (eexists; split; [vm_compute; reflexivity|]; vm_compute; auto).
+Qed.
+Print Assumptions c05_keyset_tracks_map_under_races_refuted.
